@@ -192,7 +192,11 @@ func C01(run *core.Run) {
 		if tampers == nil {
 			return
 		}
-		other := conc.SignRaw(authors[(int(ts)+1)%len(authors)], ts+7, kind, tags, content+"x")
+		otherAuthor := authors[0]
+		if otherAuthor == author {
+			otherAuthor = authors[1]
+		}
+		other := conc.SignRaw(otherAuthor, ts+7, kind, tags, content+"x") // always a different key
 		for name, authentic := range tampers {
 			if name == "none" {
 				continue
@@ -223,6 +227,15 @@ func C01(run *core.Run) {
 				t.Sig = other.Sig
 			case "id-other":
 				t.ID = other.ID
+			case "content-reid":
+				// a forgery: other content, the id recomputed for it, the genuine event's signature
+				t.Content = ev.Content + "?"
+				h := sha256.Sum256(tbl.canonical(t.Pubkey, t.CreatedAt, t.Kind, t.Tags, t.Content))
+				t.ID = hex.EncodeToString(h[:])
+			case "pubkey-reid":
+				t.Pubkey = other.Pubkey
+				h := sha256.Sum256(tbl.canonical(t.Pubkey, t.CreatedAt, t.Kind, t.Tags, t.Content))
+				t.ID = hex.EncodeToString(h[:])
 			}
 			run.Add("tampers_checked", 1)
 			ok, err := t.Verify()
